@@ -18,6 +18,7 @@ func init() {
 }
 
 func ruleR4InterruptPass(c *Ctx) []Obligation {
+	r2LoopCtx = c
 	rt := c.Pkg("homescript/runtime")
 	vp := c.Pkg("homescript/runtime/value")
 	intrObj := vp.Types.Scope().Lookup("VmInterrupt")
